@@ -575,19 +575,26 @@ def _is_first_last(e):
 def check_resolution(prog, rep):
     """S5: utils.calc_res / get_dataarray_resolution return (x, y) with x from width, y from height."""
     f = prog.func('utils', 'calc_res')
-    k = interpret(prog, f, strict=False)
-    ok = False
-    detail = ''
-    if len(k.returns) == 1 and isinstance(k.returns[0][0], TupleV) and len(k.returns[0][0].items) == 2:
-        xres, yres = k.returns[0][0].items
-        w1 = Rat.atom(App('shape', ['raster', 1])) - Rat.const(1)
-        h1 = Rat.atom(App('shape', ['raster', 0])) - Rat.const(1)
-        ok = isinstance(xres, Rat) and isinstance(yres, Rat) and xres.d == w1.n and yres.d == h1.n
-        # numerators: x uses xdim coordinates, y uses ydim
-        sx, sy = repr(xres.n), repr(yres.n)
-        ok = ok and 'xdim' in sx and 'ydim' not in sx and 'ydim' in sy and 'xdim' not in sy
-        ok = ok and 'method:max' in sx and 'method:min' in sx
-        detail = 'xres=%s yres=%s' % (show(xres, 200), show(yres, 200))
+    # on wrapper terms (the raster is 2-D: its shape is a pair; loops / comprehensions over the two axes are written out):
+    # xres = (x-coordinate max - min) / (width - 1), yres = (y-coordinate max - min) / (height - 1)
+    from ..wterm import WT, to_rat, atom_term, show as tshow, key as tkey
+    rp = ('param', f.params[0])
+    w = WT(prog, two_d=lambda t: t == rp)
+    ret = w.run(f)
+    ok, detail = None, 'returned value not a pair of quotients'
+    if ret is not None and ret[0] == 'tuple' and len(ret[1]) == 2 and all(t_[0] == 'arith' for t_ in ret[1]):
+        res = []
+        for t_, ax, dimp in zip(ret[1], (1, 0), ('xdim', 'ydim')):
+            r = to_rat(t_)
+            ext = to_rat(('index', ('attr', rp, 'shape'), ('const', ax))) - Rat.const(1)
+            other = to_rat(('index', ('attr', rp, 'shape'), ('const', 1 - ax))) - Rat.const(1)
+            txt = ' '.join(tkey(atom_term(a)) for a in Rat(r.n).atoms() if atom_term(a) is not None)
+            okd = (Rat(r.d) / ext).is_const() and not (Rat(r.d) / other).is_const()
+            okn = ("('param', '%s')" % dimp) in txt and ("('param', '%s')" % ('ydim' if dimp == 'xdim' else 'xdim')) not in txt and \
+                "'max'" in txt and "'min'" in txt
+            res.append((okd, okn))
+        ok = all(a and b for a, b in res)
+        detail = '(divided by its own extent - 1, coordinates of its own dimension): x %s, y %s; %s' % (res[0], res[1], tshow(ret, 160))
     rep.add('S5-res', f, 'calc_res', 'return xres, yres', f.node.lineno, ok,
             'xres must be the x-coordinate range over (width-1) and yres the y range over (height-1): ' + detail)
     g = prog.func('utils', 'get_dataarray_resolution')
